@@ -479,6 +479,7 @@ impl Check for C17 {
             }
             let r = scen::run_tool(env, &w, &c.setup, &c.cfg, c.p_gold.clone(), false, false);
             co.count("unusable_path_runs", 1);
+            co.count("__evaluations", 1);
             co.reach("obstacle_x_entry", format!("{}/{:?}", c.obstacle, c.setup.entry));
             let sig_tail = format!("unusable/{}", c.obstacle);
             if r.res.status.is_ok() {
@@ -575,11 +576,13 @@ impl Check for C17 {
                 }
             }
             co.count("fault_injections", n_inj);
+            co.count("__evaluations", n_inj);
         } else {
             let what = format!("sequence {:?} recovery_fault={:?} in a {} run [{}]", c.seq.iter().map(|s| format!("{:?}", s[0])).collect::<Vec<_>>(), c.recovery_fault, c.prestate, c.setup.label());
             let sig_tail = format!("sequence/{}", c.prestate);
             judge(env, &mut co, &sc, &c.seq, &what, &sig_tail, json!(null), c.recovery_fault.as_ref());
             co.count("fault_sequences", 1);
+            co.count("__evaluations", 1);
             co.tags.push(format!("{}/seq{}/{}", scen_label, c.seq.len(), c.recovery_fault.is_some()));
         }
         co.reach("scenario", scen_label);
@@ -651,7 +654,7 @@ impl Check for C17 {
     }
 
     fn rule(&self) -> String {
-        "case = one scenario: generated project x pre-state (first run ever | generated, then an edit the cache notices | the same, with the edit taken back before recovery) x entry/cwd/config source x mode x visualisation. enumerate scenarios: a fault-free golden run records its mutating libc calls e_0..e_N (mkdir, open/write/close per file, probe, .typecache); for EVERY e_k and EVERY applicable fault kind (error before, error after partial bytes, short write, EINTR, crash before, crash after, torn write at two cut points) the pre-state is restored and the run repeated with exactly that fault, followed by one fault-free non-forced recovery run. sequence scenarios: 1..3 consecutive faulty runs, optionally a fault inside the first recovery. unusable scenarios: output path is a file / parent is a file / dangling symlink / directory squatting on types.ts, commands.ts, index.ts, .typecache / over-long name. distinct_nontrivial = distinct (pre-state, entry, mode, viz, faulted file, faulted call, fault kind) tuples injected.".into()
+        "evaluations = judged faulty executions (one per injected (fault point, kind), per sequence, per unusable path); `cases` = scenarios. case = one scenario: generated project x pre-state (first run ever | generated, then an edit the cache notices | the same, with the edit taken back before recovery | generated and current, the faulty run being a FORCED regeneration) x entry/cwd/config source x mode x visualisation. enumerate scenarios: a fault-free golden run records its mutating libc calls e_0..e_N (mkdir, open/write/close per file, probe, .typecache); for EVERY e_k and EVERY applicable fault kind (error before, error after partial bytes, short write, EINTR, crash before, crash after, torn write at two cut points) the pre-state is restored and the run repeated with exactly that fault, followed by one fault-free non-forced recovery run. sequence scenarios: 1..3 consecutive faulty runs, optionally a fault inside the first recovery. unusable scenarios: output path is a file / parent is a file / dangling symlink / directory squatting on types.ts, commands.ts, index.ts, .typecache / over-long name. After each faulty execution: Ok => complete and current; one fault-free non-forced run succeeds, reaches the reference state (record included) and - for error faults - leaves no file that neither the reference nor the earlier state contains; 'up to date' only over files equal to the reference. distinct_nontrivial = distinct (pre-state, entry, mode, viz, faulted file, faulted call, fault kind) tuples injected.".into()
     }
     fn assumptions(&self) -> Vec<String> {
         vec![
